@@ -24,7 +24,18 @@ public:
     static status assign_thread_info(Token& token) {
         for (auto&& elem : thread_info_table_) {
             if (elem.gain_the_right()) {
-                elem.set_begin_epoch(epoch_management::get_epoch());
+                /**
+                 * Until the begin epoch is published the epoch thread does not wait
+                 * for this session, so the epoch read here can be arbitrarily old by
+                 * the time it is stored. Publish it and make sure it is still the
+                 * global epoch; from then on the epoch thread is held back by it.
+                 */
+                for (;;) {
+                    const Epoch epoch = epoch_management::get_epoch();
+                    elem.set_begin_epoch(epoch);
+                    std::atomic_thread_fence(std::memory_order_seq_cst);
+                    if (epoch == epoch_management::get_epoch()) { break; }
+                }
                 token = &(elem);
                 return status::OK;
             }
